@@ -446,4 +446,6 @@ Theorem cnst_removeback_stable segs n c k : Arr_Proofs.ginv seg maxi (SCc L) n c
   (forall i, 0 <= i < c - k -> Arr_Proofs.GA.pvGetItem seg segs n (c - k) i = Arr_Proofs.GA.pvGetItem seg segs n c i).
 Proof. intros. eapply (Arr_Proofs.removeback_stable seg idx cnt maxi (SCc L)); dc2. Qed.
 
+Theorem cnst_ginv_empty : Arr_Proofs.ginv seg maxi (SCc L) 0 0.
+Proof. split; [lia|]. apply (SegModel_Inst.cnst_inv_empty L HL). Qed.
 End Cnst.
